@@ -4,7 +4,7 @@ from __future__ import annotations
 from sa.terms import C, CallT, P, Sub, SubC, is_lit, show, show_fact, subterms
 from sa.walker import State, flatten_events
 
-from . import CHECKER, VSIG, call_events, fn_site, loc, mentions
+from . import CHECKER, VSIG, call_events, flat, fn_site, loc, mentions
 
 EXPLANATION = (
     "Information-flow rule on verify_delegation. R1: for every exception that a handler in verify_delegation catches "
@@ -18,6 +18,17 @@ EXPLANATION = (
     "decision table of C02, which is re-evaluated here."
 )
 RULE_TEXT = "obligations: one per caught-exception cause reaching the verifier without the comparison, one per accepting path class, plus the C02 decision table; non-trivial: decided from propagated raise conditions"
+
+
+def _forced_count(cube, atoms, spec):
+    """every completion of the cube satisfies the specification's counting condition"""
+    import itertools
+
+    for vals in itertools.product([False, True], repeat=len(atoms)):
+        v = dict(zip(atoms, vals))
+        if all(v[a] == b for a, b in cube.items()) and not spec(v):
+            return False
+    return True
 
 
 def sigmap_elements(conds, U):
@@ -49,7 +60,7 @@ def run(ctx):
     n_caught = 0
     for p in rets:
         compared = any(f[0] in ("eq", "ne") and mentions(f, name) and mentions(f, ty) for f in p.facts)
-        for ev in p.events:
+        for ev in flat(p):
             if ev[0] != "caught":
                 continue
             n_caught += 1
@@ -72,17 +83,27 @@ def run(ctx):
             {"raise site": chain[-1].text if chain else ""},
         )
 
-    # ---- R2: comparison evaluated whenever the signed part is delegating metadata
+    # ---- R2: comparison evaluated whenever the signed part is delegating metadata: every accepting
+    # path either established delegation_name == untrusted['signed']['type'], or carries the evidence
+    # that the signed part is NOT well-formed delegating metadata (the checker, applied to a value
+    # built from untrusted['signed'], failed and was caught)
     checked_paths = 0
     bad = None
+    unexcused = None
     for p in rets:
         st = State(facts=p.facts)
-        disc = [ev for ev in p.events if ev[0] == "call" and ev[2] == CHECKER and ev[5][0] == "ok" and ev[3] and ev[3][0] != T and mentions(ev[3][0], SubC(U, "signed"))]
-        if not disc:
-            continue
-        checked_paths += 1
-        if not (st.holds(("eq", name, ty)) or st.holds(("eq", ty, name))):
-            bad = p
+        evs = flat(p)
+        disc_ok = [ev for ev in evs if ev[0] == "call" and ev[2] == CHECKER and ev[5][0] == "ok" and ev[3] and ev[3][0] != T and mentions(ev[3][0], SubC(U, "signed"))]
+        disc_failed = [ev for ev in evs if ev[0] == "call" and ev[2] == CHECKER and ev[5][0] == "raise" and ev[3] and ev[3][0] != T and (mentions(ev[3][0], SubC(U, "signed")) or ev[3][0] == U)]
+        compared = st.holds(("eq", name, ty)) or st.holds(("eq", ty, name))
+        if disc_ok:
+            checked_paths += 1
+            if not compared:
+                bad = p
+        elif not compared and not disc_failed:
+            unexcused = p
+    if unexcused is not None:
+        ctx.ob("R2", "accept-without-discriminator", site.loc(), "an accepting path neither compared delegation_name with untrusted['signed']['type'] nor found the signed part not to be delegating metadata: mistyped delegating metadata can be accepted for this role", False, {"decisions on the path": [show_fact(f) for f in unexcused.facts if mentions(f, name)][:8]})
     ctx.count("R2.paths_with_wellformed_signed_part", checked_paths)
     ctx.ob(
         "R2",
@@ -124,4 +145,6 @@ def run(ctx):
         cube, _extra = cube_of(eng, m, bp)
         if bp.outcome == "skip" and not justified_skip(cube):
             unjust += 1
+        if bp.outcome.startswith("count") and not _forced_count(cube, ATOMS, spec):
+            unjust += 1  # counted although the specification does not require (allow) it
     ctx.ob("R3", "entries-independent", fn_site(eng, m.sm).loc(), "each signature entry is counted or skipped on its own merits (%d loop-body paths, %d unjustified skips/aborts): removing non-counting entries cannot change the counted set" % (len(m.body), unjust), unjust == 0)
